@@ -127,7 +127,41 @@ type Req struct {
 	Proto   string `json:"proto,omitempty"`   // for the C04 table: media|multipart|resumable
 }
 
+// badByteMarker stands, inside the names of generated requests, for a byte that makes the name invalid
+// UTF-8 (0xFF). Programs are kept as JSON, which cannot carry such a byte, so the marker is translated
+// where the request goes onto the wire and where it is printed for the model: to 0xFF in names that
+// travel in the URL (object name, copy destination), and to U+FFFD in names that travel in a JSON
+// body (multipart / resumable metadata, compose sources), which is what the server's JSON decoder
+// makes of the byte.
+const badByteMarker = "\uE0FF"
+
+func (r Req) wire() Req {
+	has := strings.Contains(r.N, badByteMarker) || strings.Contains(r.N2, badByteMarker) || (r.Up != nil && strings.Contains(r.Up.Name, badByteMarker))
+	for _, sc := range r.Srcs {
+		has = has || strings.Contains(sc.Name, badByteMarker)
+	}
+	if !has {
+		return r
+	}
+	r.N = strings.ReplaceAll(r.N, badByteMarker, "\xff")
+	r.N2 = strings.ReplaceAll(r.N2, badByteMarker, "\xff")
+	if r.Up != nil {
+		up := *r.Up
+		up.Name = strings.ReplaceAll(up.Name, badByteMarker, "\uFFFD")
+		r.Up = &up
+	}
+	if len(r.Srcs) > 0 {
+		srcs := append([]Src{}, r.Srcs...)
+		for i := range srcs {
+			srcs[i].Name = strings.ReplaceAll(srcs[i].Name, badByteMarker, "\uFFFD")
+		}
+		r.Srcs = srcs
+	}
+	return r
+}
+
 func (r Req) coq() string {
+	r = r.wire()
 	switch r.Kind {
 	case "upload_media":
 		return fmt.Sprintf("(RUploadMedia %s %s %s %s %s)", cStr(r.B), cStr(r.N), cStr(r.CType), cBytes(r.Data), cCP(r.CP))
@@ -531,6 +565,7 @@ func (e *Emu) Exec(r Req) (out Resp) {
 }
 
 func (e *Emu) exec(r Req, out *Resp) (*httptest.ResponseRecorder, string) {
+	r = r.wire()
 	if len(r.Data) > 0 || r.Kind == "upload_media" || r.Kind == "upload_multipart" {
 		sum := md5.Sum(r.Data)
 		e.sent.Store(base64.StdEncoding.EncodeToString(sum[:]), true)
